@@ -28,7 +28,15 @@ RULE = ("four real CookieHandlers (distinct keys) + attacker handlers with other
         "swapped inside the cookie, every base64 part altered (character flipped / deleted / inserted / case / "
         "padding / alphabet / non-alphabet character), clear-text timestamp changed, truncations at and around "
         "every boundary, extra and missing parts, cookies of the other handlers and of attacker keys; "
-        "(3) new_cookie through real providers.  A case is one make or one parse; distinct by its string.")
+        "(3) new_cookie through real providers; (4) canonicalisation-sensitive content: every token of CANON "
+        "(percent escapes well-formed / malformed / nested / of the separators, plus signs, HTML entities, "
+        "backslash, octal and quoted-string escapes, quoted-printable, leading / trailing / control whitespace, "
+        "NUL, Unicode normalisation / compatibility / case-folding pairs, non-BMP, look-alikes of '|' and ':', "
+        "cookie-attribute syntax, numeric look-alikes) as the whole value, as the whole type and embedded (between "
+        "characters, doubled, inside a JSON document), in every handler mode, plus random compositions; and "
+        "re-encodings of genuine cookies (separators / base64 characters / payload characters percent-encoded, "
+        "whole value quoted, plus<->space, decoded once, entity-encoded, double-quoted, white space around, "
+        "look-alike separators).  A case is one make or one parse; distinct by its string.")
 ASSUMPTIONS = [
     "HMAC-SHA256 (cryptojwt HMACSigner), AES-GCM (cryptojwt AES_GCMEncrypter) and Fernet are ideal: MAC/AE terms "
     "of Lib/Crypto.v; a key of the handler is never published (Dolev-Yao hypothesis `secret`)",
@@ -318,6 +326,119 @@ TYPES_OK = ["", "sso", "s", "reg", "a:b", "x y", "t|u", "å", "a:"]
 TYPES_HOSTILE = [":b", "x::y", "::", ":", "b ", "  ", "a::", ":::"]
 
 
+# Content a "canonicalising" layer (percent / form / entity decoding, cookie quoted-string unquoting, MIME decoding,
+# white-space trimming, Unicode normalisation, case folding, C-string handling) would rewrite.  C17 quantifies over all
+# payload strings and type tags: each token must come back exactly, in every position and every mode.
+CANON = [
+    ("pct", ["%2F", "%20", "%7C", "%7c", "%25", "%3A%3A", "%3a", "%2B", "%3D", "%22", "%5C", "%0A", "%00", "%E2%82%AC",
+             "%C3%A5", "%C3", "%252F", "%257C", "%u20AC", "15%25 off", "next=%2Fhome&x=a%20b"]),
+    ("pct-malformed", ["%", "%%", "%2", "%G1", "%zz", "100%", "%%7C", "%7"]),
+    ("plus", ["+", "a+b", "+ +", " +", "a%2Bb+c d"]),
+    ("entity", ["&amp;", "&#124;", "&#x7C;", "&lt;b&gt;", "&quot;", "&colon;&colon;", "&", "&amp;amp;"]),
+    ("backslash", ["\\\"", "\\\\", "\\054", "\\073", "\\174", "\\x7c", "\\u007c", "\\n", "\\", "\\072\\072"]),
+    ("quoted", ["\"q\"", "'q'", "\"", "\"\"", "\"a|b\""]),
+    ("mime", ["=7C", "=3D", "=\n", "=?utf-8?q?a?=", "=3A=3A"]),
+    ("space", [" lead", "trail ", "\tt\t", "\r\n", "a\r\nb", "\u00a0", "\u200b", "\ufeff", "\x00", "a\x00b", "\x7f",
+               "\x0b", "a  b", "\u2028", " "]),
+    ("unicode", ["\u00e9", "e\u0301", "\ufb01", "\uff5c", "\uff1a\uff1a", "\u212b", "\u00c5", "A\u030a", "\u01c5", "\u00df",
+                 "\u0130", "\U0001f600", "\u00c3\u00a5", "\u01c0", "\ufe55\ufe55", "\u2236\u2236"]),
+    ("case", ["AbC", "ABC", "abc"]),
+    ("base64", ["YQ==", "YQ", "-_", "YWJj\n"]),
+    ("attribute", [";", ",", "; Path=/", "a=b", "a=b; c=d", "$Version", "n=v"]),
+    ("number", ["017", "1e3", "+1", "0x1F", "1.0", "-0"]),
+]
+CANON_TOKENS = [(cls, tok) for cls, toks in CANON for tok in toks]
+
+
+def canon_class(v, t):
+    """oracle key class of a round-trip failure on canonicalisation-sensitive content"""
+    if "%" in v or "%" in t:
+        return "rt-percent"
+    if "+" in v or "+" in t:
+        return "rt-plus"
+    return "rt-canon"
+
+
+def rcanon(rng, maxtok=4):
+    return "".join(rng.choice(CANON_TOKENS)[1] if rng.random() < 0.7 else rng.choice(VALUE_ALPHA)
+                   for _ in range(rng.randint(1, maxtok)))
+
+
+def canon_roundtrips(ctx, U, mode, rng, clock, make_cases, parse_cases):
+    """(4): every CANON token alone as value, alone as type, and embedded; then random compositions"""
+    def go(v, t, kind):
+        do_make(ctx, U, mode, v, t, str(1000 + clock.now % 7919), clock.now, make_cases, parse_cases, kind)
+        clock.tick(1)
+    for cls, tok in CANON_TOKENS:
+        go(tok, "sso", "roundtrip-canon-value:" + cls)
+        go("v", tok if typ_in_guard(mode, tok) else "t" + tok, "roundtrip-canon-type:" + cls)
+        emb = [("x" + tok + "y", ""), (tok + tok, "s"), (json.dumps({"sub": "d", "return_to": "https://rp.example.org/cb?" + tok}), ""),
+               ("a" + tok, "b" + tok + "c")]
+        for v, t in (emb if not ctx.quick else [emb[rng.randrange(len(emb))]]):
+            go(v, t, "roundtrip-canon-embedded:" + cls)
+    types = TYPES_OK + [tok for _, tok in CANON_TOKENS if "::" not in tok and not tok.startswith(":")]
+    for _ in range(20 if ctx.quick else 600):
+        v = rcanon(rng)
+        t = rng.choice(types) if rng.random() < 0.6 else ""
+        do_make(ctx, U, mode, v, t, rng.choice([str(rng.randint(1, 2 * 10 ** 9)), 0]), clock.now, make_cases, parse_cases,
+                "roundtrip-canon-random")
+        clock.tick(rng.randint(0, 2))
+
+
+def pct(ch):
+    return "".join("%%%02X" % b for b in ch.encode("utf-8"))
+
+
+def reencodings(c):
+    """a genuine cookie string pushed through encoders / decoders a transport or framework layer might apply: none of
+    these strings was produced by the provider.  Yields (kind, string)."""
+    import html
+    import urllib.parse as up
+    seps = [i for i, ch in enumerate(c) if ch == BAR]
+    yield ("reenc-pct-bar-all", c.replace(BAR, "%7C"))
+    yield ("reenc-pct-bar-all-lower", c.replace(BAR, "%7c"))
+    for i in seps:
+        yield ("reenc-pct-bar@%d" % i, c[:i] + "%7C" + c[i + 1:])
+    yield ("reenc-pct-dcolon", c.replace("::", "%3A%3A"))
+    yield ("reenc-pct-colon", c.replace(":", "%3A"))
+    yield ("reenc-pct-base64-chars", c.replace("=", "%3D").replace("+", "%2B").replace("/", "%2F"))
+    yield ("reenc-pct-equals", c.replace("=", "%3D"))
+    yield ("reenc-quote", up.quote(c, safe=""))
+    yield ("reenc-quote-keep-bar", up.quote(c, safe="|:=/+"))
+    yield ("reenc-quote-plus", up.quote_plus(c))
+    yield ("reenc-quote-twice", up.quote(up.quote(c, safe=""), safe=""))
+    yield ("reenc-unquote", up.unquote(c))
+    yield ("reenc-unquote-plus", up.unquote_plus(c))
+    yield ("reenc-plus-to-space", c.replace("+", " "))
+    yield ("reenc-space-to-plus", c.replace(" ", "+"))
+    yield ("reenc-space-to-pct", c.replace(" ", "%20"))
+    # one ordinary character of every part written as its percent escape
+    parts = c.split(BAR)
+    for j, p in enumerate(parts):
+        for i in sorted({0, len(p) // 2, len(p) - 1}):
+            if 0 <= i < len(p) and p[i] != "%":
+                q = list(parts)
+                q[j] = p[:i] + pct(p[i]) + p[i + 1:]
+                yield ("reenc-pct-char-part%d@%d" % (j, i), BAR.join(q))
+    yield ("reenc-all-pct", "".join(pct(ch) for ch in c))
+    yield ("reenc-entity", html.escape(c))
+    yield ("reenc-entity-bar", c.replace(BAR, "&#124;"))
+    yield ("reenc-unescape", html.unescape(c))
+    yield ("reenc-dquoted", "\"" + c.replace("\\", "\\\\").replace("\"", "\\\"") + "\"")
+    yield ("reenc-dquoted-plain", "\"" + c + "\"")
+    yield ("reenc-octal-bar", c.replace(BAR, "\\174"))
+    yield ("reenc-qp-bar", c.replace(BAR, "=7C"))
+    yield ("reenc-fullwidth-bar", c.replace(BAR, "\uff5c"))
+    yield ("reenc-fullwidth-colon", c.replace(":", "\uff1a"))
+    for name, alt in (("lead-space", " " + c), ("lead-tab", "\t" + c), ("trail-tab", c + "\t"), ("trail-crlf", c + "\r\n"),
+                      ("lead-bom", "\ufeff" + c), ("trail-nul", c + "\x00"), ("trail-semicolon", c + ";"),
+                      ("trail-attribute", c + "; Path=/"), ("named", "n=" + c), ("upper", c.upper()), ("lower", c.lower())):
+        yield ("reenc-" + name, alt)
+    import unicodedata
+    for form in ("NFC", "NFD", "NFKC", "NFKD"):
+        yield ("reenc-" + form, unicodedata.normalize(form, c))
+
+
 def rvalue(rng, maxlen=12):
     return "".join(rng.choice(VALUE_ALPHA) for _ in range(rng.randint(0, maxlen)))
 
@@ -330,6 +451,8 @@ def classify_rt(mode, v, t):
     if v.endswith(":"):
         return "rt-colon-edge"
     return "rt-other"
+
+
 
 
 def typ_in_guard(mode, t):
@@ -373,7 +496,10 @@ def do_make(ctx, U, mode, v, t, ts, now, make_cases, parse_cases, kind, oracle=T
     numeric_ts = ts_eff.isdigit() and ts_eff.isascii()
     if oracle and typ_in_guard(mode, t) and numeric_ts:
         if out != ("ok", v, t, ts_eff):
-            ctx.violation(classify_rt(mode, v, t),
+            key = classify_rt(mode, v, t)
+            if key == "rt-other" and kind.startswith("roundtrip-canon"):
+                key = canon_class(v, t)
+            ctx.violation(key,
                           "mode %s: make_cookie_content(value=%r, typ=%r, timestamp=%r) -> %r parses back to %r"
                           % (mode.name, v, t, ts, c, out), rec2)
     else:
